@@ -536,7 +536,7 @@ def jobs_for(pid, tier):
         return [dict(tag="%s-%dx%d" % (tag, ca, cb), spec="pair", family=family, mode=mode,
                      consts={"CapA": ca, "CapB": cb, "Classes": ([0, 1, 2] if max(ca, cb) <= 3 and q else [0, 1, 2, 3])}) for ca, cb in caps]
 
-    MFAM = ["core", "entry", "unchecked", "disjoint", "cursor", "bulk", "clone"]
+    MFAM = ["core", "entry", "unchecked", "disjoint", "cursor", "bulk", "clone", "binary"]
     SFAM = ["core", "cursor", "bulk", "clone", "binary"]
 
     def micro(tag, mode, adv, cap, classes, fams, **c):
@@ -558,6 +558,10 @@ def jobs_for(pid, tier):
                        [micro("mi-set-n3", "set", False, 3, [1, 2, 3, 4], SFAM, MaxItems=4)]
         micro_adv = [micro("ma-map-n%d" % n, "map", True, n, [1], MFAM, MaxJ=4, MaxItems=4) for n in (0, 1, 2, 3, 4)] + \
                     [micro("ma-set-n%d" % n, "set", True, n, [1], SFAM, MaxItems=4) for n in (0, 1, 2, 3, 4)]
+
+    # the binary operations alone (results compared with the model's: ==, !=, predicates, adaptor counts, -)
+    micro_bin = [micro("mb-%s-n%d" % (md, n), md, False, n, [1, 2, 3] if n < 3 else [1, 2, 3, 4], ["binary"])
+                 for md in ("map", "set") for n in ((1, 2) if q else (1, 2, 3))]
 
     def trace(tag, mode):
         return dict(tag=tag, spec="trace", mode=mode, family=["trace"], runs=(6 if q else 40), steps=(400 if q else 2000),
@@ -598,8 +602,8 @@ def jobs_for(pid, tier):
         "C18": both("unchecked", ["unchecked"], consts={"MaxKs": 3}, bigconsts={"Vers": [0], "MaxKs": 4}) + tmap + tbig,
         "C19": both("fmt", ["fmt", "cursor"]) + core + setcore + pairs("alg", ["algebra"], "set", qcaps[:2] if q else tcaps[:6])
                + ([J("fmt-n3", ["fmt"], consts={"Caps": [3], "Vers": [0], "Vals": [0]}), J("setfmt-n3", ["fmt"], mode="set", consts={"Caps": [3], "Vers": [0]})] if q else []),
-        "C08": pairs("alg", ["algebra"], "set", qcaps if q else tcaps) + tset + tbigset,
-        "C14": tbigset
+        "C08": pairs("alg", ["algebra"], "set", qcaps if q else tcaps) + tset + tbigset + [j for j in micro_bin if j["mode"] == "set"],
+        "C14": tbigset + micro_bin
                + [dict(tag="eq4-%s" % md, spec="pair", family=["eq"], mode=md,
                        consts=({"CapA": 4, "CapB": 4, "Classes": [0, 1, 2, 3, 4], "Vals": [0]} if md == "set" or q
                                else {"CapA": 4, "CapB": 4, "Classes": [0, 1, 2, 3], "Vals": [0, 1]})) for md in ("set", "map")]
